@@ -487,6 +487,8 @@ func vcMut(prop int, k int, c tmplCfg, record int) {
 var cfgSmall = tmplCfg{outputs: 1, hidden: 1, genes: 3, traits: 1, params: 1, fixedBase: true, symRecur: true, symEnable: true}
 var cfgLink = tmplCfg{outputs: 1, hidden: 1, genes: 2, traits: 1, params: 1, fixedBase: true, symRecur: false, symEnable: false}
 var cfgSensors = tmplCfg{outputs: 1, hidden: 1, genes: 2, traits: 2, params: 1, fixedBase: true, biasFree: true, symRecur: true, symEnable: true}
+var cfgSensors2 = tmplCfg{outputs: 1, hidden: 1, genes: 2, traits: 1, params: 1, symRecur: false, symEnable: true, links: [][2]int{{0, 2}, {3, 2}}}
+var cfgLinkLate = tmplCfg{outputs: 1, hidden: 1, genes: 2, traits: 1, params: 1, fixedBase: true, lateInput: true}
 var cfgTiny = tmplCfg{outputs: 1, hidden: 0, genes: 2, traits: 1, params: 1, fixedBase: true, symRecur: false, symEnable: true}
 var cfgTwoTraits = tmplCfg{outputs: 1, hidden: 1, genes: 3, traits: 2, params: 1, fixedBase: true, symRecur: false, symEnable: true}
 
@@ -496,7 +498,9 @@ func VC01_AddLink_Thorough() {
 	tNewLinkTries = 2
 	vcMut(propC01, mutAddLink, cfgSmall, vChoice("record", 2))
 }
-func VC01_ConnectSensors() { vcMut(propC01, mutConnectSensors, cfgSensors, vChoice("record", 3)) }
+func VC01_ConnectSensors()  { vcMut(propC01, mutConnectSensors, cfgSensors, vChoice("record", 3)) }
+func VC01_ConnectSensors2() { vcMut(propC01, mutConnectSensors, cfgSensors2, vChoice("record", 2)) }
+func VC01_AddLinkLate()     { vcMut(propC01, mutAddLink, cfgLinkLate, vChoice("record", 2)) }
 func VC01_Parametric() {
 	vcMut(propC01, mutLinkWeights+vChoice("mutator", mutAllNonstructural-mutLinkWeights), cfgTwoTraits, 0)
 }
@@ -507,7 +511,9 @@ func VC05_AddLink_Thorough() {
 	tNewLinkTries = 2
 	vcMut(propC05, mutAddLink, cfgSmall, vChoice("record", 2))
 }
-func VC05_ConnectSensors() { vcMut(propC05, mutConnectSensors, cfgSensors, vChoice("record", 3)) }
+func VC05_ConnectSensors()  { vcMut(propC05, mutConnectSensors, cfgSensors, vChoice("record", 3)) }
+func VC05_ConnectSensors2() { vcMut(propC05, mutConnectSensors, cfgSensors2, vChoice("record", 2)) }
+func VC05_AddLinkLate()     { vcMut(propC05, mutAddLink, cfgLinkLate, vChoice("record", 2)) }
 func VC05_Parametric() {
 	vcMut(propC05, mutLinkWeights+vChoice("mutator", mutAllNonstructural-mutLinkWeights), cfgTwoTraits, 0)
 }
@@ -518,4 +524,6 @@ func VC03_AddLink_Thorough() {
 	tNewLinkTries = 2
 	vcMut(propC03, mutAddLink, cfgSmall, vChoice("record", 2))
 }
-func VC03_ConnectSensors() { vcMut(propC03, mutConnectSensors, cfgSensors, vChoice("record", 3)) }
+func VC03_ConnectSensors()  { vcMut(propC03, mutConnectSensors, cfgSensors, vChoice("record", 3)) }
+func VC03_ConnectSensors2() { vcMut(propC03, mutConnectSensors, cfgSensors2, vChoice("record", 2)) }
+func VC03_AddLinkLate()     { vcMut(propC03, mutAddLink, cfgLinkLate, vChoice("record", 2)) }
